@@ -9,6 +9,16 @@ pub trait Elem: vecdb::VecValue + Bytes + Copy + PartialEq + 'static {
     const NAME: &'static str;
     const SIZE: usize = std::mem::size_of::<Self>();
     fn from_seed(s: u64) -> Self;
+    /// every byte pseudo-random (incompressible runs: a compressed page then exceeds its uncompressed size)
+    fn entropy(s: u64) -> Self {
+        let mut buf = [0u8; 64];
+        let mut x = s;
+        for chunk in buf.chunks_mut(8) {
+            x = splitmix64(x);
+            chunk.copy_from_slice(&x.to_le_bytes());
+        }
+        Self::from_bytes(&buf[..Self::SIZE]).unwrap_or_else(|_| Self::from_seed(s))
+    }
     /// bit-exact identity (NaN payloads, -0.0 distinguished)
     fn bits(&self) -> Vec<u8> {
         self.to_bytes().as_ref().to_vec()
